@@ -153,6 +153,7 @@ class Engine:
         style = rng.choice(["flat", "mutate", "query", "derive", "io"])
         if not c10 and rng.random() < 0.08:
             style = "iosweep"       # one file, one fault kind, fault position swept over consecutive indices
+            cfg["steps"] = min(cfg["steps"], 16)
             cfg["faulty"] = True
             cfg["fault_kinds"] = ["bitflip", "open_error", "read_error", "truncated"]
         elif style != "flat":
@@ -219,6 +220,8 @@ class Engine:
             bufsize = rng.choice([1, 16, 128, 8192])
             if rng.random() < 0.6:
                 name = rng.choice(self.builtin_names)
+                if self.tables[name][1] > 2500 and rng.random() < 0.8:
+                    name = rng.choice([x for x in self.builtin_names if self.tables[x][1] <= 2500])
                 size = self.tables[name][1]
                 if size > 3000 and chunks[0] < 16:
                     chunks = [64]
